@@ -153,6 +153,12 @@ def _run(case, cfg, w):
     c = w.add_client('c', reconnection=False)
 
     def plan(label, args, ev):
+        if label[3] == 'disconnect':
+            # the application's disconnect handler may take a while (and, as
+            # a coroutine, suspend): notifications for other namespaces are
+            # processed meanwhile
+            return [('pause', w.choices.pick('app', (0.0, 0.0, 0.002, 0.01),
+                                             'dpause')), ('ret', None)]
         return [('ret', None)]
     coroutine = cfg['coroutine'] and w.mode == 'async'
     events = ['connect', 'disconnect', 'connect_error', 'ev']
